@@ -316,7 +316,7 @@ class Interp:
                 return m(self, fn.__self__, *args, **kwargs)
         if m is not None:
             return m(self, *args, **kwargs)
-        if (getattr(fn, "__module__", None) or "").split(".")[0] in ("pyvc", "contracts"):
+        if callable(fn) and (getattr(fn, "__module__", None) or "").split(".")[0] in ("pyvc", "contracts"):
             return fn(*args, **kwargs)  # theory / contract code: runs natively on symbolic values
         if inspect.ismethod(fn):  # live bound method (e.g. classmethod bound to a class)
             return self.call(fn.__func__, [fn.__self__] + list(args), kwargs)
@@ -636,6 +636,15 @@ class Interp:
                 pass
             else:
                 return self.call(cls_attr.fget, [o])
+        if isinstance(cls_attr, (pytypes.FunctionType, classmethod, staticmethod)) and name not in o.field_types and not dict.__contains__(o.attrs, name):
+            # a method of the class (not shadowed by an instance attribute): never materialise a symbolic attribute for it
+            if isinstance(cls_attr, pytypes.FunctionType):
+                return BoundMethod(o, cls_attr)
+            if isinstance(cls_attr, classmethod):
+                return BoundMethod(o.cls, cls_attr.__func__)
+            return cls_attr.__func__
+        if name in ("__str__", "__repr__") and type(cls_attr).__name__ in ("wrapper_descriptor", "method_descriptor"):
+            return SlotText(o, name)
         if name in o.attrs:
             return o.attrs[name]
         if name in o.__dict__.get("deleted", ()):  # deleted attribute
@@ -1170,6 +1179,16 @@ class Interp:
         while f is not None:
             frames.append(f)
             f = f.parent
+        # names used by nested functions that the body calls: their free variables are touched by the loop as well
+        for name in list(mentioned):
+            for f in frames:
+                if name in f.locals:
+                    v = f.locals[name]
+                    if isinstance(v, Closure) and v.frame is not None:
+                        for n in ast.walk(v.node):
+                            if isinstance(n, ast.Name):
+                                mentioned.add(n.id)
+                    break
         for name in sorted(mentioned):
             for f in frames:
                 if name in f.locals:
@@ -1474,6 +1493,10 @@ class Interp:
             return acc
         if isinstance(c, str) and isinstance(x, str):
             return x in c
+        if isinstance(c, str) and isinstance(x, SStr):
+            return SBool(z3.Contains(z3.StringVal(c), x.z))
+        if isinstance(c, SStr) and isinstance(x, (str, SStr)):
+            return SBool(z3.Contains(c.z, z3.StringVal(x) if isinstance(x, str) else x.z))
         if isinstance(c, Obj):
             f = _find_in_mro(c.cls, "__contains__") if c.cls is not None else None
             if isinstance(f, pytypes.FunctionType):
@@ -1517,6 +1540,10 @@ class Interp:
             if is_concrete(k) or isinstance(k, Obj):
                 if k in c:
                     return dict.__getitem__(c, k)
+                if getattr(c, "default_factory", None) is not None:  # collections.defaultdict
+                    v = self.call(c.default_factory, [])
+                    dict.__setitem__(c, k, v)
+                    return v
                 self.raise_py(KeyError, k)
             for kk, vv in c.items():
                 if self.truth(py_eq(k, kk)):
@@ -1705,6 +1732,19 @@ class OpaqueAttr:
         self.__name__ = name
         self.__qualname__ = f"<opaque>.{name}"
         self.__module__ = "opaque"
+
+
+class SlotText:
+    """str(obj) / repr(obj) through a builtin slot (object.__str__, BaseException.__str__): opaque text"""
+
+    __pyvc_model__ = True
+
+    def __init__(self, obj, name):
+        self.obj, self.name = obj, name
+        self.__name__ = name
+
+    def __call__(self, *a, **k):
+        return Fmt([f"<{self.name} of ", self.obj, ">"])
 
 
 class BuiltinInit:
